@@ -169,7 +169,7 @@ def check_property(prop, tier='quick', seed=0, jobs=None):
             continue
         bad = [o for o in cl['items'] if o['verdict'] in ('refuted', 'unknown')]
         rep = [o for o in bad if o.get('reproduced')]
-        k = next((k for k in known if fnmatch.fnmatch(name, k.get('obligation', ''))), None)
+        k = next((k for k in known if k.get('obligation', '').strip('*') and k.get('obligation', '').strip('*') in name), None)
         if k is not None:
             known_hits.append((k, name))
             continue
@@ -219,6 +219,8 @@ def check_property(prop, tier='quick', seed=0, jobs=None):
 
 
 def write_evidence(prop, tier, seed, reg, results, clauses, bounded, violations, undecided, crashes, known_hits, wall, trusted):
+    known_names = {n for _, n in known_hits}
+    clauses = {k: v for k, v in clauses.items() if k not in known_names}     # recorded findings are listed separately, not claimed
     n_ob = len(clauses)
     n_proved = sum(1 for c in clauses.values() if c['verdict'] == 'proved')
     by_backend = {}
